@@ -277,31 +277,7 @@ class Exec:
                 st, model, secs = 'discharged', None, 0.0
             else:
                 t = time.time()
-                r = None
-                # stage 1: quantifier-free hypotheses only (fewer hypotheses: 'unsat' is still a proof)
-                qf = [h for h in self.hyps if not _has_quant(h)]
-                if len(qf) < len(self.hyps) and not _has_quant(goal):
-                    s1 = self.mk_solver(min(3000, self.timeout_ms))
-                    for h in qf:
-                        s1.add(h)
-                    s1.add(z3.Not(goal))
-                    if s1.check() == z3.unsat:
-                        r = z3.unsat
-                        s = s1
-                if r is None:
-                    # portfolio over seeds with growing timeouts: unstable queries are retried, never guessed
-                    plan = [(self.timeout_ms // 4, 0), (self.timeout_ms // 2, 7), (self.timeout_ms, 13)]
-                    for tmo, sd in plan:
-                        s = self.mk_solver(tmo)
-                        s.set('random_seed', self.seed + sd)
-                        if sd:
-                            s.set('smt.random_seed', self.seed + sd) if False else None
-                        for h in self.hyps:
-                            s.add(h)
-                        s.add(z3.Not(goal))
-                        r = s.check()
-                        if r != z3.unknown:
-                            break
+                r, s = self.prove(goal)
                 secs = time.time() - t
                 self.solver_secs += secs
                 self.nqueries += 1
@@ -349,6 +325,42 @@ class Exec:
             self.obligations.append(Obligation(name, kind, label, tuple(props), st, model, secs, line,
                                                self.fname, detail))
         self.assume(goal)
+
+    def prove(self, goal):
+        """portfolio: z3's outcome on these VCs depends on how the problem is presented (batch vs. incremental
+        assertion, seed, preprocessing); every variant is the same query, any 'unsat' is a proof, any 'sat' a
+        counterexample. Returns (result, solver)."""
+        neg = z3.Not(goal)
+        qf = [h for h in self.hyps if not _has_quant(h)]
+        T = self.timeout_ms
+        plans = []
+        if not _has_quant(goal):
+            plans.append(('qf-batch', qf, 'batch', 0, min(3000, T)))
+        plans += [('batch', self.hyps, 'batch', 0, T // 4), ('incremental', self.hyps, 'inc', 0, T // 4),
+                  ('batch-seed', self.hyps, 'batch', 7, T // 2), ('tactic', self.hyps, 'tactic', 0, T // 2),
+                  ('incremental-seed', self.hyps, 'inc', 13, T)]
+        last = None
+        for name, hyps, mode, sd, tmo in plans:
+            if mode == 'tactic':
+                sv = z3.Then('simplify', 'propagate-values', 'solve-eqs', 'smt').solver()
+                sv.set('timeout', tmo)
+            else:
+                sv = self.mk_solver(tmo, seed=self.seed + sd)
+            if mode == 'inc':
+                for h in hyps:
+                    sv.add(h)
+                sv.add(neg)
+            else:
+                sv.add(*(list(hyps) + [neg]))
+            r = sv.check()
+            last = sv
+            if r == z3.unsat:
+                return r, sv
+            if r == z3.sat and hyps is self.hyps:
+                return r, sv
+            if r == z3.sat and len(qf) == len(self.hyps):
+                return r, sv
+        return z3.unknown, last
 
     def minimise(self, s):
         """prefer counterexamples with small magnitudes (replays allocate arrays of a few elements)"""
